@@ -591,3 +591,249 @@ theorem alignFold_run {inps : List (Tensor Cell)} {W : List Ax} {P : (String →
             · apply hA
               exact joinAll_ne_one (ps := [preA, presentPre (squeezedExpr [] x)]) (by simp) ha
             · exact hE x hx' a ha
+
+/-! ### the expression chosen by `elementwise` -/
+
+theorem pickAxis_mem : ∀ {l : List Ax} {a : Ax}, pickAxis l = some a → a ∈ l
+  | [], _, h => by simp [pickAxis] at h
+  | x :: xs, a, h => by
+    unfold pickAxis at h
+    cases hp : pickAxis xs with
+    | none =>
+      simp only [hp, Option.some.injEq] at h
+      subst h; exact List.mem_cons_self ..
+    | some b =>
+      simp only [hp] at h
+      by_cases hb : b.len > x.len
+      · simp only [hb, if_true, Option.some.injEq] at h
+        subst h
+        exact List.mem_cons_of_mem _ (pickAxis_mem hp)
+      · simp only [hb, if_false, Option.some.injEq] at h
+        subst h; exact List.mem_cons_self ..
+
+theorem pickAxis_some : ∀ {l : List Ax}, l ≠ [] → ∃ a, pickAxis l = some a
+  | [], h => absurd rfl h
+  | x :: xs, _ => by
+    unfold pickAxis
+    cases pickAxis xs with
+    | none => exact ⟨x, rfl⟩
+    | some b =>
+      by_cases hb : b.len > x.len
+      · exact ⟨b, by simp [hb]⟩
+      · exact ⟨x, by simp [hb]⟩
+
+/-- If the static shape of the numpy result is that of the output expression without broadcast axes (none of which
+has length 1), the axes chosen by `np.argmax` are exactly those of that expression. -/
+theorem pickCols_eq {ρ : Type} (R : List ρ) (hR : R ≠ []) (tag : ρ → Nat) (nm : ρ → List String) :
+    ∀ (W : List Ax) (k : Nat), (∀ b ∈ W, b.len ≠ 1) →
+    lens (pickCols W.length (R.map (fun x => unitaryExprAux (tag x) (nm x) k W))) = lens W →
+    pickCols W.length (R.map (fun x => unitaryExprAux (tag x) (nm x) k W)) = W
+  | [], _, _, _ => rfl
+  | b :: W, k, hne, hl => by
+    have hheads : heads (R.map (fun x => unitaryExprAux (tag x) (nm x) k (b :: W)))
+        = R.map (fun x => if (nm x).contains b.name then b else ⟨unnamedName (tag x) k, 1⟩) := by
+      simp only [heads, unitaryExprAux, List.filterMap_map, Function.comp_def, List.head?_cons]
+      induction R with
+      | nil => rfl
+      | cons r R' _ => simp [List.filterMap_cons]
+    have htails : tails (R.map (fun x => unitaryExprAux (tag x) (nm x) k (b :: W)))
+        = R.map (fun x => unitaryExprAux (tag x) (nm x) (k + 1) W) := by
+      simp only [tails, unitaryExprAux, List.map_map, Function.comp_def, List.tail_cons]
+    have hne' : R.map (fun x => if (nm x).contains b.name then b else (⟨unnamedName (tag x) k, 1⟩ : Ax)) ≠ [] := by
+      cases R with
+      | nil => exact absurd rfl hR
+      | cons r R' => simp
+    obtain ⟨a, ha⟩ := pickAxis_some hne'
+    have hmem := pickAxis_mem ha
+    simp only [List.length_cons, pickCols, hheads, htails, ha] at hl ⊢
+    simp only [List.singleton_append, lens, List.map_cons, List.cons.injEq] at hl
+    have hab : a = b := by
+      obtain ⟨x, _, hx⟩ := List.mem_map.mp hmem
+      by_cases hc : (nm x).contains b.name = true
+      · rw [if_pos hc] at hx; exact hx.symm
+      · rw [if_neg hc] at hx
+        have : a.len = 1 := by rw [← hx]
+        exact absurd (hl.1 ▸ this) (hne b (List.mem_cons_self ..))
+    rw [hab, pickCols_eq R hR tag nm W (k + 1) (fun c hc => hne c (List.mem_cons_of_mem _ hc)) hl.2]
+    rfl
+
+theorem ReadsC_of_ReadsP {T : Tensor Cell} {Lo : List Ax} {P : (String → Nat) → Prop} {c : (String → Nat) → Cell}
+    (pre : Ax → Nat) (hPLo : ∀ val, P val → Bnd val Lo) (hpre : ∀ a ∈ Lo, pre a = a.len) (hR : ReadsP P c T Lo pre) :
+    ReadsC P c T Lo := by
+  have e1 : Lo.map pre = lens Lo := List.map_congr_left hpre
+  refine ⟨by rw [hR.1, e1], ?_⟩
+  intro val hP
+  have e2 : Lo.map (fun a => if pre a = 1 then 0 else val a.name) = idx Lo val := by
+    apply List.map_congr_left
+    intro a ha
+    rw [hpre a ha]
+    have := hPLo val hP a ha
+    by_cases h1 : a.len = 1
+    · simp [h1]; omega
+    · simp [h1]
+  have := hR.2 val hP
+  rw [e1, e2] at this
+  exact this
+
+/-! ### `elementwise.inner` -/
+
+/-- The cell an elementwise operation computes from the cells of its operands. -/
+def ewCell (f : String) : EwKind → List Cell → Cell
+  | .nary, cs => foldCells f cs
+  | .fixed _, cs => .app f cs
+
+/-- The hypotheses about the output expression without broadcast axes. -/
+structure WOK (W : List Ax) (P : (String → Nat) → Prop) (ins : List (List G)) : Prop where
+  nodup : (names W).Nodup
+  bnd : ∀ val, P val → Bnd val W
+  ne1 : ∀ b ∈ W, b.len ≠ 1
+  cover : ∀ b ∈ W, ∃ e ∈ ins, b.name ∈ names (squeezedExpr [] e)
+
+theorem cover_len {W : List Ax} {P : (String → Nat) → Prop} {ins : List (List G)} (hw : WOK W P ins) {preF : Ax → Nat}
+    (hm : Mask W preF) (hE : ∀ e ∈ ins, ∀ a, presentPre (squeezedExpr [] e) a ≠ 1 → preF a ≠ 1) :
+    ∀ b ∈ W, preF b = b.len := by
+  intro b hb
+  obtain ⟨e, he, hn⟩ := hw.cover b hb
+  have h1 : presentPre (squeezedExpr [] e) b = b.len := by
+    simp only [presentPre]
+    rw [if_pos (List.contains_iff_mem.mpr hn)]
+  have := hE e he b (by rw [h1]; exact hw.ne1 b hb)
+  rcases hm b hb with h2 | h2
+  · exact h2
+  · exact absurd h2 this
+
+theorem ewInner_run {inps : List (Tensor Cell)} {W : List Ax} {P : (String → Nat) → Prop} {f : String} {kind : EwKind}
+    {ins : List (List G)} {s s2 : St} {regs : List (Tensor Cell)} {exprRes : List Ax}
+    (hk : ewKindOf f = some kind) (hw : WOK W P ins) (hok : InsOK W P ins) (h : Tr inps s regs)
+    (hin : ∀ k e, ins[k]? = some e → regs[k]? = some (symInput k (gShape e)))
+    (he : Generic.ewInner f s ins W = .ok (exprRes, s2)) :
+    exprRes = W ∧ (∀ e ∈ ins, (names (G.leavesL e)).Nodup ∧ ∀ n ∈ names (squeezedExpr [] e), n ∈ names W) ∧
+    ∃ (ext : List (Tensor Cell)) (T : Tensor Cell), Run inps s2 (regs ++ ext) T ∧
+      ReadsC P (fun val => ewCell f kind ((ins.zipIdx 0).map (fun x => cOf x.2 x.1 val))) T W := by
+  have hin0 : ∀ k e, ins[k]? = some e → regs[0 + k]? = some (symInput (0 + k) (gShape e)) := by
+    intro k e hke; simpa using hin k e hke
+  unfold Generic.ewInner at he
+  simp only [hk, pure_bind] at he
+  cases ins with
+  | nil => cases kind <;> simp [throw, throwThe, MonadExceptOf.throw] at he
+  | cons e es =>
+    have hRne : ((e :: es).zipIdx 0) ≠ [] := by simp
+    cases kind with
+    | fixed n =>
+      simp only [] at he
+      cases ha : alignAll W 0 s (e :: es) with
+      | error er => simp [ha, bind, Except.bind] at he
+      | ok y =>
+        obtain ⟨xs, os', s1⟩ := y
+        simp only [ha, bind, Except.bind] at he
+        obtain ⟨hall, hxs, ext1, ods, htr, hreg, hshape, hpre, hcs, hread⟩ :=
+          alignAll_run hw.nodup hw.bnd (e :: es) 0 s s1 regs xs os' h hin0 hok ha
+        by_cases hn : os'.length = n
+        · simp only [hn, bne_self_eq_false, Bool.false_eq_true, if_false, pure, Except.pure] at he
+          cases hcall : ewiseCall f s1 os' with
+          | error er => simp [hcall] at he
+          | ok s2' =>
+            simp only [hcall] at he
+            have hodsne : ods ≠ [] := by
+              intro hnil
+              rw [hnil] at hpre
+              simp at hpre
+            obtain ⟨T2, hrun2, hR2⟩ := ewise_run ods hodsne htr hread
+              (by
+                intro d hd p
+                have : d.pre ∈ ods.map (·.pre) := List.mem_map.mpr ⟨d, hd, rfl⟩
+                rw [hpre] at this
+                obtain ⟨e', _, he'⟩ := List.mem_map.mp this
+                rw [← he']
+                exact presentPre_mask W _ p)
+              hw.bnd os' hreg hshape hcall
+            have hJm : Mask W (joinAll (ods.map (·.pre))) := by
+              rw [hpre]
+              exact joinAll_mask (by
+                intro p hp
+                obtain ⟨e', _, rfl⟩ := List.mem_map.mp hp
+                exact presentPre_mask W _)
+            have hlen := cover_len hw hJm (by
+              intro e' he' a ha'
+              rw [hpre]
+              exact joinAll_ne_one (List.mem_map.mpr ⟨e', he', rfl⟩) ha')
+            by_cases hsh : s2'.shape = lens (pickCols W.length xs)
+            · simp only [hsh, bne_self_eq_false, Bool.false_eq_true, if_false, Except.ok.injEq, Prod.mk.injEq] at he
+              obtain ⟨he1, he2⟩ := he
+              subst he2
+              have hlw : lens (pickCols W.length xs) = lens W := by
+                rw [← hsh, ← hrun2.shape, hR2.1]
+                exact List.map_congr_left hlen
+              have hpick : pickCols W.length xs = W := by
+                rw [hxs] at hlw ⊢
+                exact pickCols_eq _ hRne (fun x => x.2) (fun x => names (squeezedExpr [] x.1)) W 0 hw.ne1 hlw
+              refine ⟨by rw [← he1, hpick], hall, ext1 ++ [T2], T2, by rw [← List.append_assoc]; exact hrun2, ?_⟩
+              have hR3 := ReadsC_of_ReadsP _ hw.bnd hlen hR2
+              have hcells : ∀ val : String → Nat, ods.map (fun d => d.c val)
+                  = ((e :: es).zipIdx 0).map (fun x => cOf x.2 x.1 val) := by
+                intro val
+                have h1 : ods.map (fun d => d.c val) = (ods.map (·.c)).map (fun c => c val) := by simp [List.map_map]
+                rw [h1, hcs]; simp [List.map_map]
+              refine ⟨hR3.1, ?_⟩
+              intro val hv
+              have := hR3.2 val hv
+              dsimp only at this
+              rw [hcells val] at this
+              exact this
+            · have : (s2'.shape != lens (pickCols W.length xs)) = true := by simpa using hsh
+              simp [this, throw, throwThe, MonadExceptOf.throw] at he
+        · have : (os'.length != n) = true := by simpa using hn
+          simp [this, throw, throwThe, MonadExceptOf.throw, pure, Except.pure] at he
+    | nary =>
+      simp only [] at he
+      cases hc : chainInput W s 0 e with
+      | error er => simp [hc, bind, Except.bind] at he
+      | ok x =>
+        obtain ⟨e0, s0⟩ := x
+        simp only [hc, bind, Except.bind] at he
+        cases hf : alignFold f W 1 s0 es with
+        | error er => simp [hf] at he
+        | ok y =>
+          obtain ⟨xs, s1⟩ := y
+          simp only [hf] at he
+          have hi0 : regs[0]? = some (symInput 0 (gShape e)) := by simpa using hin 0 e rfl
+          obtain ⟨hnd, hsub, he0, ext1, T1, hrun1, hR1⟩ := chain_run h hi0 hw.nodup (hok.bnd e (List.mem_cons_self ..)) hw.bnd
+            (hok.cons e (List.mem_cons_self ..)) hc
+          have hin' : ∀ k e', es[k]? = some e' → (regs ++ ext1)[1 + k]? = some (symInput (1 + k) (gShape e')) := by
+            intro k e' hke
+            have := hin (k + 1) e' (by simpa using hke)
+            have e3 : k + 1 = 1 + k := by omega
+            rw [e3] at this
+            exact getElem?_append_of_some this ext1
+          obtain ⟨hall, hxs, ext2, T2, preF, hrun2, hR2, hmF, hA, hE⟩ :=
+            alignFold_run (f := f) hw.nodup hw.bnd es 1 s0 s1 (regs ++ ext1) xs T1 _ _ hrun1 hR1 (presentPre_mask W _) hin' hok.tail hf
+          have hlen := cover_len hw hmF (by
+            intro e' he' a ha'
+            rcases List.mem_cons.mp he' with rfl | he''
+            · exact hA a ha'
+            · exact hE e' he'' a ha')
+          by_cases hsh : s1.shape = lens (pickCols W.length (e0 :: xs))
+          · simp only [hsh, bne_self_eq_false, Bool.false_eq_true, if_false, pure, Except.pure, Except.ok.injEq,
+              Prod.mk.injEq] at he
+            obtain ⟨he1, he2⟩ := he
+            subst he2
+            have hrows : e0 :: xs = ((e :: es).zipIdx 0).map (fun x => unitaryExpr x.2 (squeezedExpr [] x.1) W) := by
+              simp only [List.zipIdx_cons, List.map_cons, he0, hxs, Nat.zero_add]
+            have hlw : lens (pickCols W.length (e0 :: xs)) = lens W := by
+              rw [← hsh, ← hrun2.shape, hR2.1]
+              exact List.map_congr_left hlen
+            have hpick : pickCols W.length (e0 :: xs) = W := by
+              rw [hrows] at hlw ⊢
+              exact pickCols_eq _ hRne (fun x => x.2) (fun x => names (squeezedExpr [] x.1)) W 0 hw.ne1 hlw
+            refine ⟨by rw [← he1, hpick], ?_, ext1 ++ ext2, T2, by rw [← List.append_assoc]; exact hrun2, ?_⟩
+            · intro x hx
+              rcases List.mem_cons.mp hx with rfl | hx'
+              · exact ⟨hnd, hsub⟩
+              · exact hall x hx'
+            · have hR3 := ReadsC_of_ReadsP _ hw.bnd hlen hR2
+              refine ⟨hR3.1, ?_⟩
+              intro val hv
+              have := hR3.2 val hv
+              simpa only [ewCell, foldCells, List.zipIdx_cons, List.map_cons, Nat.zero_add, cOf] using this
+          · have : (s1.shape != lens (pickCols W.length (e0 :: xs))) = true := by simpa using hsh
+            simp [this, throw, throwThe, MonadExceptOf.throw, pure, Except.pure] at he
